@@ -606,7 +606,12 @@ def w_pop_nids(case):
     red = chi.ReducedPopulationModel(inner)
     names_a = inner.get_parameter_names()
     fixed = {names_a[i]: v for i, v in case['fix']}
-    red.fix_parameters(dict(fixed))
+    if fixed:
+        red.fix_parameters(dict(fixed))
+    if case.get('release_first'):
+        # everything released again before the number of individuals changes
+        red.fix_parameters({n_: None for n_ in fixed})
+        fixed = {}
     red.set_n_ids(b)
     full_names = inner.get_parameter_names()
     e_names = [n for n in full_names if n not in fixed]
@@ -734,6 +739,75 @@ def w_intfree(case):
                  and isinstance(got[k][0], str))], 8)]), 'violations': viol}
 
 
+SHARED_OPS = {
+    'fix_sb': {'Sigma base': 0.45}, 'fix_sr': {'Sigma rel.': 0.15},
+    'refix_sb': {'Sigma base': 0.9}, 'rel_sb': {'Sigma base': None},
+    'swap': {'Sigma base': None, 'Sigma rel.': 0.3}, 'fix_p0': {'p0': 1.2}}
+
+
+def w_shared_em(case):
+    """Two likelihoods (and a predictive model) built from ONE user error model
+    that already is a parameter-fixing wrapper: each behaves according to its own
+    fix / release history only, and the user's object is left alone."""
+    from ..ref import errors as rerr, toy
+    viol = []
+    user = chi.ReducedErrorModel(chi.ConstantAndMultiplicativeGaussianErrorModel())
+    pre = dict(case['pre'])
+    if pre:
+        user.fix_parameters(dict(pre))
+    times, obs = [0.3, 0.9, 1.4], [1.0, 2.0, 1.5]
+    objs = [chi.LogLikelihood(ToyModel(2, 1), [user], obs, times)
+            for _ in range(2)]
+    state = [dict(pre), dict(pre)]
+    full = {'p0': 0.9, 'p1': 0.6, 'Sigma base': 0.5, 'Sigma rel.': 0.2}
+    names = list(full)
+
+    def expect(k):
+        v = dict(full)
+        v.update(state[k])
+        ybar = np.real(toy.evaluate([v['p0'], v['p1']], times, 1))[0]
+        e = float(np.sum(rerr.pointwise(
+            'CM', np.array([v['Sigma base'], v['Sigma rel.']]), ybar,
+            np.array(obs))))
+        return e, [n_ for n_ in names if n_ not in state[k]]
+    for k, op in case['ops']:
+        objs[k].fix_parameters(dict(SHARED_OPS[op]))
+        for n_, v_ in SHARED_OPS[op].items():
+            if v_ is None:
+                state[k].pop(n_, None)
+            else:
+                state[k][n_] = v_
+        for j in (0, 1):
+            e, free = expect(j)
+            if list(objs[j].get_parameter_names()) != free:
+                viol.append({'sub': 'shared_names', 'message': 'likelihood %d built '
+                             'from a shared reduced error model lists %s after %s'
+                             % (j, objs[j].get_parameter_names(), case['ops']),
+                             'expected': free,
+                             'observed': list(objs[j].get_parameter_names()),
+                             'behaviour': 'shared_em'})
+                return {'transitions': 3, 'outcome': 'viol', 'violations': viol}
+            if free:
+                x = [full[n_] for n_ in free]
+                g = [objs[j](x), objs[j].evaluateS1(x)[0]]
+                if not all(tol.close(v_, e) for v_ in g):
+                    viol.append({'sub': 'shared_value', 'message': 'likelihood %d '
+                                 'built from a shared reduced error model is not '
+                                 'the density at its OWN fixed values after %s'
+                                 % (j, case['ops']), 'expected': e, 'observed': g,
+                                 'behaviour': 'shared_em'})
+                    return {'transitions': 3, 'outcome': 'viol', 'violations': viol}
+    e_user = [n_ for n_ in ('Sigma base', 'Sigma rel.') if n_ not in pre]
+    if list(user.get_parameter_names()) != e_user:
+        viol.append({'sub': 'shared_user', 'message': 'the user\'s reduced error '
+                     'model changed after %s' % case['ops'], 'expected': e_user,
+                     'observed': list(user.get_parameter_names()),
+                     'behaviour': 'shared_em'})
+    return {'transitions': 2 * len(case['ops']) + 3,
+            'outcome': key_of([case, expect(0)[0], expect(1)[0]]),
+            'violations': viol}
+
+
 def ops_for(n, with_eval=True):
     ops = []
     for i in range(n):
@@ -752,7 +826,8 @@ def ops_for(n, with_eval=True):
     return ops
 
 
-WORKERS = {'pop_nids': w_pop_nids, 'zero_values': w_zero, 'int_free': w_intfree}
+WORKERS = {'pop_nids': w_pop_nids, 'zero_values': w_zero, 'int_free': w_intfree,
+           'shared_error_model': w_shared_em}
 ALL_KINDS = ['err:G', 'err:M', 'err:CM', 'err:LN', 'mech:toy', 'mech:sbml',
              'mech:toy:sens', 'mech:sbml:sens', 'mech:sbmlren', 'mech:sbmlren:sens',
              'mech:sbml:regimen', 'mech:sbml:outs',
@@ -830,6 +905,10 @@ def build(tier, seed):
                 if names_a[i] in names_b:      # the parameter survives the change
                     nids.append({'spec': spec, 'n_before': a, 'n_after': b,
                                  'fix': [[i, 0.77]]})
+                    nids.append({'spec': spec, 'n_before': a, 'n_after': b,
+                                 'fix': [[i, 0.77]], 'release_first': True})
+            # a wrapper with nothing fixed
+            nids.append({'spec': spec, 'n_before': a, 'n_after': b, 'fix': []})
     from ..core.engine import Part
     zeros = []
     for kind in ALL_KINDS:
@@ -849,8 +928,17 @@ def build(tier, seed):
                     continue
                 for form in ('list', 'array'):
                     intfree.append({'kind': kind, 'fixed': list(fx), 'form': form})
+    shared = []
+    for pre in ([], [['Sigma rel.', 0.25]], [['Sigma base', 0.7]]):
+        for d_ in (1, 2):
+            for seq in itertools.product(
+                    [(k_, o_) for k_ in (0, 1) for o_ in SHARED_OPS], repeat=d_):
+                shared.append({'pre': pre, 'ops': [list(x_) for x_ in seq]})
     return {
-        'parts': [Part('int_free', intfree, w_intfree,
+        'parts': [Part('shared_error_model', shared, w_shared_em,
+                       'two likelihoods built from one reduced user error model: '
+                       'every sequence of <= 2 fix / release calls on either'),
+                  Part('int_free', intfree, w_intfree,
                        'whole-number free parameters handed over as ints while the '
                        'fixed values are not whole numbers: every subset of <= 2 '
                        'fixed parameters of every reducible object'),
@@ -888,3 +976,9 @@ META = {
                   'parameter. Histories reaching a known abstract state are not '
                   'extended further.',
 }
+META['level_text'] += (
+    ' Also: every subset of <= 2 parameters fixed at non-integer values with intege'
+    'r-typed free parameters; two likelihoods built from one reduced user error mod'
+    'el under every sequence of <= 2 fix / release calls; outputs re-selected throu'
+    'gh the wrapper before every simulation; wrappers with nothing fixed across set'
+    '_n_ids.')
